@@ -113,4 +113,84 @@ def renderNth : List Ty → Nat → Val → Bytes
   | _ :: ts, i + 1, v => renderNth ts i v
 end
 
+/-! ### documented rendering with the pretty printer: the types binlog adapts itself are printed specially
+    (UserGuide: addresses as `0x` + hex, durations as count + unit, paths / directory entries / error codes as their
+    string; time points through the date format — not covered here, they need the clock sync).  Everything else as `render`. -/
+
+def charsOf (vs : List Val) : Bytes := vs.map (fun v => match v with | .num raw => UInt8.ofNat raw | _ => 0)
+
+def durationSuffix (name : Bytes) : Option Bytes :=
+  if Pretty.startsWith name (Pretty.strBytes "std::chrono::duration<Rep,") then
+    if Pretty.endsWith name (Pretty.strBytes "std::nano>") then some (Pretty.strBytes "ns")
+    else if Pretty.endsWith name (Pretty.strBytes "std::micro>") then some (Pretty.strBytes "us")
+    else if Pretty.endsWith name (Pretty.strBytes "std::milli>") then some (Pretty.strBytes "ms")
+    else if Pretty.endsWith name (Pretty.strBytes "std::ratio<1>>") then some (Pretty.strBytes "s")
+    else if Pretty.endsWith name (Pretty.strBytes "std::ratio<60>>") then some (Pretty.strBytes "m")
+    else if Pretty.endsWith name (Pretty.strBytes "std::ratio<3600>>") then some (Pretty.strBytes "h")
+    else none
+  else none
+
+/-- the special renderings, stated on the source-level value -/
+def specialStruct (name : Bytes) (fs : List (Bytes × Ty)) (vs : List Val) : Option Bytes :=
+  match fs, vs with
+  | [(f, .arith c)], [.num raw] =>
+    if name = Pretty.strBytes "binlog::address" ∧ f = Pretty.strBytes "value" ∧ c = 76 then
+      some (Pretty.strBytes "0x" ++ hexDigitsUpper raw)
+    else match durationSuffix name with
+      | some suf =>
+        if f = Pretty.strBytes "count" ∧ c = 108 then some (Pretty.intDec (Pretty.toSigned 64 raw) ++ suf)
+        else if f = Pretty.strBytes "count" ∧ c = 105 then some (Pretty.intDec (Pretty.toSigned 32 raw) ++ suf)
+        else none
+      | none => none
+  | [(f, .seq (.arith 99))], [.seq cs] =>
+    if (name = Pretty.strBytes "std::filesystem::path" ∧ f = Pretty.strBytes "str")
+        ∨ (name = Pretty.strBytes "std::error_code" ∧ f = Pretty.strBytes "message") then some (charsOf cs)
+    else none
+  | [(f, .struct pn [(g, .seq (.arith 99))])], [.tup [.seq cs]] =>
+    if name = Pretty.strBytes "std::filesystem::directory_entry" ∧ f = Pretty.strBytes "path"
+        ∧ pn = Pretty.strBytes "std::filesystem::path" ∧ g = Pretty.strBytes "str" then some (charsOf cs)
+    else none
+  | _, _ => none
+
+mutual
+def renderPP : Ty → Val → Bytes
+  | .arith c, .num raw => Pretty.arithText c raw
+  | .seq e, .seq vs =>
+    if isCharTy e then charsOf vs
+    else if vs.length > repeatThreshold && singularTy e then
+      match vs with
+      | v :: _ => [91] ++ renderPP e v ++ Pretty.strBytes " ... <repeats " ++ Pretty.natDec vs.length
+                    ++ Pretty.strBytes " times>" ++ [93]
+      | [] => [91, 93]
+    else [91] ++ joinComma (renderPPAll e vs) ++ [93]
+  | .tup es, .tup vs => [40] ++ joinComma (renderPPList es vs) ++ [41]
+  | .var alts, .alt i v => renderPPNth alts i v
+  | .null, .nul => Pretty.strBytes "{null}"
+  | .enum u _ ens, .num raw =>
+    let hexv := integerToHex u raw
+    let n := lookupEnumerator hexv ens
+    if n.isEmpty then Pretty.strBytes "0x" ++ hexv else n
+  | .struct name fs, .tup vs =>
+    match specialStruct name fs vs with
+    | some b => b
+    | none =>
+      let nm := (removePrefixBefore name cLt).1
+      if fs.isEmpty then nm
+      else nm ++ [123, 32] ++ joinComma (renderPPFields fs vs) ++ [32, 125]
+  | _, _ => []
+def renderPPAll : Ty → List Val → List Bytes
+  | _, [] => []
+  | e, v :: vs => renderPP e v :: renderPPAll e vs
+def renderPPList : List Ty → List Val → List Bytes
+  | t :: ts, v :: vs => renderPP t v :: renderPPList ts vs
+  | _, _ => []
+def renderPPFields : List (Bytes × Ty) → List Val → List Bytes
+  | (n, t) :: fs, v :: vs => ((if n.isEmpty then [] else n ++ [58, 32]) ++ renderPP t v) :: renderPPFields fs vs
+  | _, _ => []
+def renderPPNth : List Ty → Nat → Val → Bytes
+  | [], _, _ => []
+  | t :: _, 0, v => renderPP t v
+  | _ :: ts, i + 1, v => renderPPNth ts i v
+end
+
 end BinlogVerif.Mser
